@@ -3,6 +3,7 @@ package an
 import (
 	"fmt"
 	"go/types"
+	"math"
 	"math/big"
 	"strings"
 
@@ -94,6 +95,26 @@ func (e *Eval) call(fr *frame, x *ssa.Call, st State) AV {
 		return TupleV{} // another package's initialiser: its globals are read from the syntax tree
 	}
 	if callee.Pkg != nil && e.P.InModule(callee.Pkg) || (callee.Parent() != nil && callee.Parent().Pkg != nil && e.P.InModule(callee.Parent().Pkg)) {
+		if len(callee.Blocks) > 0 && e.Ctx != nil && e.Ctx.Modular[callee] {
+			// an entry point that is analysed on its own for every argument class: its behaviour
+			// is not re-derived here, its results are simply unknown
+			e.record(fr, x, "modular:"+fnKey(callee), nil, args, nil, st)
+			for _, a := range args {
+				e.escape(fr, st, a, "passed to "+callee.Name())
+			}
+			sig := callee.Signature.Results()
+			if sig.Len() == 0 {
+				return TupleV{}
+			}
+			if sig.Len() == 1 {
+				return e.topOf(sig.At(0).Type(), "result of "+callee.Name())
+			}
+			out := make(TupleV, sig.Len())
+			for i := range out {
+				out[i] = e.topOf(sig.At(i).Type(), "result of "+callee.Name())
+			}
+			return out
+		}
 		if len(callee.Blocks) > 0 {
 			res, out := e.evalFunc(callee, args, bindings, st, fr.depth+1, false)
 			if gr, gs, ok := e.guardedResult(x, callee, e.lastRets); ok {
@@ -469,8 +490,54 @@ func (e *Eval) model(fr *frame, x *ssa.Call, callee *ssa.Function, args []AV, st
 			}
 		}
 		return ret(BytesV{Src: "⊤: normalisation of " + shortAV(args[1])})
+	case "(golang.org/x/text/unicode/norm.Form).AppendString", "(golang.org/x/text/unicode/norm.Form).Append":
+		// f.Append(out, src...) = f(out ++ src); with an empty out that is f(src) in a fresh or reused buffer
+		if f, ok := args[0].(IntV); ok {
+			if c, ok := f.Const(); ok && c == int64(norm.NFKD) && len(args) == 3 {
+				empty := false
+				switch d := args[1].(type) {
+				case NilV:
+					empty = true
+				case BytesV:
+					dd := e.resolveBytes(d, st)
+					empty = dd.LenKnown && dd.Len == K(0) && d.Param == nil
+				}
+				var inner AV
+				switch sv := args[2].(type) {
+				case StrV:
+					inner = sv
+				case BytesV:
+					if sv.Str != nil {
+						inner = sv.Str
+					}
+				}
+				if empty && inner != nil {
+					if sv, ok := inner.(StrV); ok && sv.Kind == skConst {
+						return ret(BytesV{Src: "conv", Str: CStr(norm.NFKD.String(sv.S))})
+					}
+					return ret(BytesV{Src: "conv", Str: StrV{Kind: skNFKD, X: inner}})
+				}
+			}
+		}
+		if d, ok := args[1].(BytesV); ok {
+			e.escape(fr, st, d, "norm.Append destination")
+		}
+		return ret(BytesV{Src: "⊤: normalisation appended to " + shortAV(args[1])})
 	case "errors.New":
 		s, _ := args[0].(StrV)
+		if s.Kind == skConcat {
+			// a message built by concatenation: the constant pieces form the text, the others are its arguments
+			ev := ErrV{Kind: ekFresh, Site: x}
+			for _, p := range s.Parts {
+				if ps, ok := p.(StrV); ok && ps.Kind == skConst {
+					ev.Format += strings.ReplaceAll(ps.S, "%", "%%")
+				} else {
+					ev.Format += "%v"
+					ev.Args = append(ev.Args, p)
+				}
+			}
+			return ret(ev)
+		}
 		return ret(ErrV{Kind: ekFresh, Format: s.S, Site: x})
 	case "fmt.Errorf":
 		return ret(e.errorf(fr, x, args, st))
@@ -847,7 +914,18 @@ func (e *Eval) bigMethod(fr *frame, x *ssa.Call, m string, args []AV, st State) 
 			e.clobber(fr, st, "FillBytes into a slice that is not resolved", okBuf, okCell)
 		}
 		return args[1]
-	case "BitLen", "Sign", "IsInt64", "IsUint64", "Bit", "TrailingZeroBits", "ProbablyPrime":
+	case "BitLen":
+		c := get(0)
+		if c.Kind == bkConst {
+			return CInt(int64(c.C.BitLen()))
+		}
+		if l, ok := c.asLayout(); ok {
+			if w, ok := l.Width(); ok {
+				return RangeInt(0, w) // the layout bounds the magnitude: at most w significant bits
+			}
+		}
+		return RangeInt(0, math.MaxInt32)
+	case "Sign", "IsInt64", "IsUint64", "Bit", "TrailingZeroBits", "ProbablyPrime":
 		return e.topOf(x.Type(), m)
 	case "String", "Text":
 		return TopStr("big.Int." + m)
@@ -1000,7 +1078,7 @@ func (e *Eval) guardedResult(x *ssa.Call, callee *ssa.Function, rets []retRec) (
 		if len(r.vals) != sig.Len() {
 			return nil, nil, false
 		}
-		ev, _ := r.vals[len(r.vals)-1].(ErrV)
+		ev := asErr(r.vals[len(r.vals)-1])
 		switch {
 		case ev.Kind == ekNil:
 			if okV == nil {
@@ -1061,7 +1139,6 @@ func (e *Eval) guardedResult(x *ssa.Call, callee *ssa.Function, rets []retRec) (
 	res[len(res)-1] = ErrV{Kind: ekFrom, From: fnKey(callee), Site: x}
 	return res, out, true
 }
-
 
 // leftPad recognises zeros(n - |Min(v)|) followed by Min(v): together exactly the n-byte
 // big-endian encoding of v (the pre-FillBytes idiom).  z is the zero prefix, m the minimal encoding.
